@@ -107,3 +107,165 @@ template<int SHAPE> static void manifest_body() {
 extern "C" void harness_c12_rec_manifest() {
   DISPATCH_BEGIN SHAPE_CASE(manifest_body, 0) SHAPE_CASE(manifest_body, 1) DISPATCH_END
 }
+
+
+// ---- InterrogateMakeSeq ----
+template<int SHAPE> static void make_seq_body() {
+  as_file_version(3);
+  InterrogateMakeSeq *a = new InterrogateMakeSeq, *b = new InterrogateMakeSeq;
+  fill_component<SHAPE & 1>(a);
+  a->_length_getter = nondet_int(); a->_element_getter = nondet_int();
+  sym_str(a->_scoped_name); sym_str(a->_comment);
+  std::ostream *out; std::istream *in;
+  finish_roundtrip(a, b, out, in);
+  check_component<SHAPE & 1>(a, b);
+  SAME(_length_getter, "make_seq length getter"); SAME(_element_getter, "make_seq element getter");
+  SAME(_scoped_name, "make_seq scoped name"); SAME(_comment, "make_seq comment");
+  WITNESS();
+}
+extern "C" void harness_c12_rec_make_seq() {
+  DISPATCH_BEGIN SHAPE_CASE(make_seq_body, 0) SHAPE_CASE(make_seq_body, 1) DISPATCH_END
+}
+
+// ---- InterrogateElement (current format, minor version 3) ----
+static void fill_element_scalars(InterrogateElement *a) {
+  a->_flags = nondet_int(); a->_type = nondet_int(); a->_getter = nondet_int(); a->_setter = nondet_int();
+  a->_has_function = nondet_int(); a->_clear_function = nondet_int(); a->_del_function = nondet_int();
+  a->_length_function = nondet_int(); a->_insert_function = nondet_int(); a->_getkey_function = nondet_int();
+}
+template<int SHAPE> static void element_body() {
+  as_file_version(3);
+  InterrogateElement *a = new InterrogateElement, *b = new InterrogateElement;
+  fill_component<SHAPE & 1>(a);
+  fill_element_scalars(a);
+  sym_str(a->_scoped_name); sym_str(a->_comment);
+  std::ostream *out; std::istream *in;
+  finish_roundtrip(a, b, out, in);
+  check_component<SHAPE & 1>(a, b);
+  SAME(_flags, "element flags"); SAME(_type, "element type"); SAME(_getter, "element getter"); SAME(_setter, "element setter");
+  SAME(_has_function, "element has_function"); SAME(_clear_function, "element clear_function");
+  SAME(_del_function, "element del_function"); SAME(_length_function, "element length_function");
+  SAME(_insert_function, "element insert_function"); SAME(_getkey_function, "element getkey_function");
+  SAME(_scoped_name, "element scoped name"); SAME(_comment, "element comment");
+  WITNESS();
+}
+extern "C" void harness_c12_rec_element() {
+  DISPATCH_BEGIN SHAPE_CASE(element_body, 0) SHAPE_CASE(element_body, 1) DISPATCH_END
+}
+
+// ---- InterrogateFunction: SHAPE bit0 = one alt name, bit1 = one C wrapper, bit2 = one Python wrapper ----
+template<int SHAPE> static void function_body() {
+  as_file_version(3);
+  InterrogateFunction *a = new InterrogateFunction, *b = new InterrogateFunction;
+  fill_component<SHAPE & 1>(a);
+  a->_flags = nondet_int(); a->_class = nondet_int();
+  sym_str(a->_scoped_name);
+  if (SHAPE & 2) a->_c_wrappers.push_back(nondet_int());
+  if (SHAPE & 4) a->_python_wrappers.push_back(nondet_int());
+  sym_str(a->_comment); sym_str(a->_prototype);
+  std::ostream *out; std::istream *in;
+  finish_roundtrip(a, b, out, in);
+  check_component<SHAPE & 1>(a, b);
+  SAME(_flags, "function flags"); SAME(_class, "function class"); SAME(_scoped_name, "function scoped name");
+  ASSERT(b->_c_wrappers.size() == ((SHAPE & 2) ? 1u : 0u), "C12 number of C wrappers is read back as written");
+  if ((SHAPE & 2) && b->_c_wrappers.size() == 1) SAME(_c_wrappers[0], "function C wrapper index");
+  ASSERT(b->_python_wrappers.size() == ((SHAPE & 4) ? 1u : 0u), "C12 number of Python wrappers is read back as written");
+  if ((SHAPE & 4) && b->_python_wrappers.size() == 1) SAME(_python_wrappers[0], "function Python wrapper index");
+  SAME(_comment, "function comment"); SAME(_prototype, "function prototype");
+  WITNESS();
+}
+extern "C" void harness_c12_rec_function() {
+  DISPATCH_BEGIN SHAPE_CASE(function_body, 0) SHAPE_CASE(function_body, 7) SHAPE_CASE(function_body, 2) SHAPE_CASE(function_body, 5) DISPATCH_END
+}
+
+// ---- InterrogateFunctionWrapper: SHAPE bit0 = one alt name, bits 1..2 = number of parameters (0..2) ----
+template<int SHAPE> static void wrapper_body() {
+  as_file_version(3);
+  const int NP = SHAPE >> 1;
+  InterrogateFunctionWrapper *a = new InterrogateFunctionWrapper, *b = new InterrogateFunctionWrapper;
+  fill_component<SHAPE & 1>(a);
+  a->_flags = nondet_int(); a->_function = nondet_int(); a->_return_type = nondet_int(); a->_return_value_destructor = nondet_int();
+  sym_str(a->_unique_name); sym_str(a->_comment);
+  a->_parameters.reserve(NP);
+  for (int i = 0; i < NP; i++) {
+    a->_parameters.emplace_back();
+    InterrogateFunctionWrapper::Parameter &p = a->_parameters.back();
+    sym_str(p._name); p._parameter_flags = nondet_int(); p._type = nondet_int();
+  }
+  std::ostream *out; std::istream *in;
+  finish_roundtrip(a, b, out, in);
+  check_component<SHAPE & 1>(a, b);
+  SAME(_flags, "wrapper flags"); SAME(_function, "wrapper function"); SAME(_return_type, "wrapper return type");
+  SAME(_return_value_destructor, "wrapper return value destructor");
+  SAME(_unique_name, "wrapper unique name"); SAME(_comment, "wrapper comment");
+  ASSERT(b->_parameters.size() == (size_t)NP, "C12 number of parameters is read back as written");
+  for (int i = 0; i < NP && i < (int)b->_parameters.size(); i++) {
+    SAME(_parameters[i]._name, "parameter name"); SAME(_parameters[i]._parameter_flags, "parameter flags");
+    SAME(_parameters[i]._type, "parameter type");
+  }
+  WITNESS();
+}
+extern "C" void harness_c12_rec_wrapper() {
+  DISPATCH_BEGIN SHAPE_CASE(wrapper_body, 0) SHAPE_CASE(wrapper_body, 3) SHAPE_CASE(wrapper_body, 4) DISPATCH_END
+}
+
+// ---- InterrogateType: SHAPE bit0 = one alt name, bits 1..8 = one element in constructors, elements, methods,
+//      make_seqs, casts, derivations, enum_values, nested_types ----
+template<int SHAPE> static void type_body() {
+  as_file_version(3);
+  InterrogateType *a = new InterrogateType, *b = new InterrogateType;
+  fill_component<SHAPE & 1>(a);
+  a->_flags = nondet_int();
+  sym_str(a->_scoped_name); sym_str(a->_true_name);
+  a->_outer_class = nondet_int();
+  a->_atomic_token = (AtomicToken)nondet_int();
+  a->_wrapped_type = nondet_int();
+  // the array size is part of the file only for array types; other types keep the constructor default
+  if (a->_flags & InterrogateType::F_array) a->_array_size = nondet_int();
+  if (SHAPE & 2) a->_constructors.push_back(nondet_int());
+  a->_destructor = nondet_int();
+  if (SHAPE & 4) a->_elements.push_back(nondet_int());
+  if (SHAPE & 8) a->_methods.push_back(nondet_int());
+  if (SHAPE & 16) a->_make_seqs.push_back(nondet_int());
+  if (SHAPE & 32) a->_casts.push_back(nondet_int());
+  if (SHAPE & 64) {
+    InterrogateType::Derivation d;
+    d._flags = nondet_int(); d._base = nondet_int(); d._upcast = nondet_int(); d._downcast = nondet_int();
+    a->_derivations.push_back(d);
+  }
+  if (SHAPE & 128) {
+    a->_enum_values.reserve(1);
+    a->_enum_values.emplace_back();
+    InterrogateType::EnumValue &e = a->_enum_values.back();
+    sym_str(e._name); sym_str(e._scoped_name); sym_str(e._comment); e._value = nondet_int();
+  }
+  if (SHAPE & 256) a->_nested_types.push_back(nondet_int());
+  sym_str(a->_comment);
+  std::ostream *out; std::istream *in;
+  finish_roundtrip(a, b, out, in);
+  check_component<SHAPE & 1>(a, b);
+  SAME(_flags, "type flags"); SAME(_scoped_name, "type scoped name"); SAME(_true_name, "type true name");
+  SAME(_outer_class, "type outer class"); SAME(_atomic_token, "type atomic token"); SAME(_wrapped_type, "type wrapped type");
+  SAME(_array_size, "type array size"); SAME(_destructor, "type destructor"); SAME(_comment, "type comment");
+#define VEC1(f, bit, what) ASSERT(b->f.size() == ((SHAPE & (bit)) ? 1u : 0u), "C12 length of " what " is read back as written"); \
+  if ((SHAPE & (bit)) && b->f.size() == 1) SAME(f[0], what)
+  VEC1(_constructors, 2, "type constructors"); VEC1(_elements, 4, "type elements"); VEC1(_methods, 8, "type methods");
+  VEC1(_make_seqs, 16, "type make_seqs"); VEC1(_casts, 32, "type casts"); VEC1(_nested_types, 256, "type nested types");
+  ASSERT(b->_derivations.size() == ((SHAPE & 64) ? 1u : 0u), "C12 length of type derivations is read back as written");
+  if ((SHAPE & 64) && b->_derivations.size() == 1) {
+    SAME(_derivations[0]._flags, "derivation flags"); SAME(_derivations[0]._base, "derivation base");
+    SAME(_derivations[0]._upcast, "derivation upcast"); SAME(_derivations[0]._downcast, "derivation downcast");
+  }
+  ASSERT(b->_enum_values.size() == ((SHAPE & 128) ? 1u : 0u), "C12 length of type enum values is read back as written");
+  if ((SHAPE & 128) && b->_enum_values.size() == 1) {
+    SAME(_enum_values[0]._name, "enum value name"); SAME(_enum_values[0]._scoped_name, "enum value scoped name");
+    SAME(_enum_values[0]._comment, "enum value comment"); SAME(_enum_values[0]._value, "enum value");
+  }
+  WITNESS();
+}
+#ifndef TYPE_SHAPES
+#define TYPE_SHAPES SHAPE_CASE(type_body, 0) SHAPE_CASE(type_body, 0x1ff) SHAPE_CASE(type_body, 0x0aa) SHAPE_CASE(type_body, 0x155)
+#endif
+extern "C" void harness_c12_rec_type() {
+  DISPATCH_BEGIN TYPE_SHAPES DISPATCH_END
+}
